@@ -27,7 +27,7 @@ class Cov(np.ndarray):
             # same convention as the frame setter: regular frames are Frame objects
             frame = get_frame(frame)
 
-        buf = np.array(values)
+        buf = np.array(values, dtype=float)
 
         if buf.ndim != 2 or buf.shape[0] != buf.shape[1] or buf.shape[0] != 6:
             raise ValueError(
